@@ -33,7 +33,26 @@ func c17Batch(ch func(int) int) []rc.Message {
 	var out []rc.Message
 	for i := 0; i < n; i++ {
 		fid := uint32(20 + i)
-		switch ch(8) {
+		switch ch(10) {
+		case 8:
+			// a frame the server skips: unknown type, any body
+			body := make([]byte, []int{0, 1, 5, 64, 500, 3000}[ch(6)])
+			for k := range body {
+				body[k] = byte(k*7 + i)
+			}
+			out = append(out, &rc.Opaque{Type: []uint8{3, 99, 211, 255}[ch(4)], Body: body})
+		case 9:
+			// a frame the server rejects: known type, body too short or
+			// inconsistent with its own count
+			switch ch(3) {
+			case 0:
+				out = append(out, &rc.Opaque{Type: rc.TypeTwalk, Body: []byte{1, 0}})
+			case 1:
+				out = append(out, &rc.Opaque{Type: rc.TypeTwrite, Body: []byte{1, 0, 0, 0, 9}})
+			case 2:
+				b := rc.EncodeBody(&rc.Twrite{Fid: fid, Offset: 3, Data: make([]byte, 40+ch(400))})
+				out = append(out, &rc.Opaque{Type: rc.TypeTwrite, Body: b[:len(b)-1-ch(30)]})
+			}
 		case 0, 1:
 			sz := []int{0, 1, 2, 63, 64, 65, 500, 4000}[ch(8)]
 			d := make([]byte, sz)
@@ -267,7 +286,7 @@ func init() {
 		Desc: "stream segmentation independence on the io.Reader and the socket (recvmsg) receive paths",
 		Run:  runC17,
 		Quick: 48000, Thorough: 800000, QuickSecs: 60, ThorSecs: 1500,
-		Rule:  "batches of 2-6 independent requests with and without payloads (Twrite 0..4000 bytes, Tread, Twalk 0-2 names, Tmkdir/Tsymlink with strings of 0..200 bytes, Tsetattr, Tgetattr with random masks) delivered as one byte stream cut into reads: single bytes, tape-chosen cuts, one or two planned cuts (aimed at offsets 1,4,6,7,8 and around the first frame boundary half of the time), several frames per read, streams ending at a tape-chosen offset, and complete streams whose end arrives as a separate (0, EOF) read or together with the final bytes (n, EOF); each through the generic io.Reader path (simnet) and a real AF_UNIX socket pair (vecnet recvmsg/iovec path), server and client as receivers. Oracle: per request, the reply and the backend calls with their arguments and payload bytes equal those of a whole, lock-step reference delivery; a stream ending inside a frame ends the connection with no reply and no backend call for the partial frame.",
+		Rule:  "batches of 2-6 independent requests with and without payloads (Twrite 0..4000 bytes, Tread, Twalk 0-2 names, Tmkdir/Tsymlink with strings of 0..200 bytes, Tsetattr, Tgetattr with random masks, and well-delimited frames the server skips or rejects: unknown types with bodies of 0..3000 bytes, known types with short or inconsistent bodies) delivered as one byte stream cut into reads: single bytes, tape-chosen cuts, one or two planned cuts (aimed at offsets 1,4,6,7,8 and around the first frame boundary half of the time), several frames per read, streams ending at a tape-chosen offset, and complete streams whose end arrives as a separate (0, EOF) read or together with the final bytes (n, EOF); each through the generic io.Reader path (simnet) and a real AF_UNIX socket pair (vecnet recvmsg/iovec path), server and client as receivers. Oracle: per request, the reply and the backend calls with their arguments and payload bytes equal those of a whole, lock-step reference delivery; a stream ending inside a frame ends the connection with no reply and no backend call for the partial frame.",
 		Assume: []string{"requests of a batch touch disjoint fids and names, so concurrent handling cannot change their individual results"},
 		Real:   []string{"p9 recv path", "vecnet.Buffers.ReadFrom (generic and recvmsg paths)", "kernel socket pair (socket mode)", "p9.Server"},
 		Stub:   []string{"transport for the reply direction (simnet)", "backend tree (simfs)", "raw 9P peer (refcodec)"},
